@@ -538,13 +538,47 @@ fn gen_op(rng: &mut Rng, s: &Session, pool: &[(Syllable, Vec<KeyCode>)], pending
                 return Op::Key(Tab, plain);
             }
             let e = *rng.pick(&known);
+            let mut syls: Vec<Syllable> = e.0.clone();
+            // C02: chain a phrase that starts with the last syllable of the first one: only OVERLAPPING phrases
+            // survive the engine's path trimming as alternatives that read differently (AB|C vs A|BC)
+            let chain: Vec<&&(Vec<Syllable>, String, u32)> =
+                known.iter().filter(|f| f.0[0] == *syls.last().unwrap() && f.0 != e.0).collect();
+            if !chain.is_empty() && rng.chance(3, 4) {
+                let f = **rng.pick(&chain);
+                syls.extend_from_slice(&f.0[1..]);
+            }
             let mut seq: Vec<Op> = vec![];
-            for syl in &e.0 {
+            let expect = s.ed.len() + syls.len();
+            let mut o = s.ed.editor_options();
+            if o.auto_commit_threshold < expect && rng.chance(2, 3) {
+                o.auto_commit_threshold = expect + rng.below(3) as usize;
+                seq.push(Op::SetOpts(o));
+            }
+            for syl in &syls {
                 let keys = &pool.iter().find(|p| p.0 == *syl).unwrap().1;
                 seq.extend(keys.iter().map(|k| Op::Key(*k, plain)));
             }
-            if rng.chance(1, 3) {
-                seq.push(Op::Key(Tab, plain));
+            if rng.chance(1, 2) {
+                for _ in 0..(1 + rng.below(3)) {
+                    seq.push(Op::Key(Tab, plain));
+                }
+                // … and commit what the chosen alternative shows, by every route
+                match rng.below(8) {
+                    0 | 1 => seq.push(Op::Key(Enter, plain)),
+                    2 => seq.push(Op::Commit),
+                    3 | 4 => {
+                        o.auto_commit_threshold = rng.below(expect as u64) as usize;
+                        seq.push(Op::SetOpts(o));
+                        seq.extend(rng.pick(pool).1.iter().map(|k| Op::Key(*k, plain)));
+                    }
+                    5 => {
+                        o.auto_commit_threshold = rng.below(expect as u64) as usize;
+                        seq.push(Op::SetOpts(o));
+                        seq.push(Op::StartSel);
+                        seq.push(Op::Select(0));
+                    }
+                    _ => {}
+                }
             }
             seq.reverse();
             let first = seq.pop().unwrap();
@@ -646,6 +680,22 @@ fn main() {
         let mut rng = Rng::new(seed.wrapping_mul(1_000_003).wrapping_add(sid));
         let words_for_all = !rng.chance(1, 6);
         let sys: Vec<SysLayer> = (0..(1 + rng.below(2))).map(|_| gen_layer(&mut rng, &pool, words_for_all)).collect();
+        // C02: overlapping phrase pairs (a b) / (b c) in two sessions out of three (own stream: the other choices are
+        // unchanged) — the engine offers alternatives that READ differently only for overlapping phrases
+        let mut rng_c02 = Rng::new(seed.wrapping_mul(7_777_777).wrapping_add(sid));
+        let mut sys = sys;
+        if rng_c02.chance(2, 3) {
+            for _ in 0..(1 + rng_c02.below(3)) {
+                let (a, b, c) = (rng_c02.pick(&pool).0, rng_c02.pick(&pool).0, rng_c02.pick(&pool).0);
+                for k in [vec![a, b], vec![b, c]] {
+                    let p = gen_phrase(&mut rng_c02, 2);
+                    let f = *rng_c02.pick(&[1u32, 10, 100, 100, 500, 1000]);
+                    if !sys[0].iter().any(|e| e.0 == k && e.1 == p) {
+                        sys[0].push((k, p, f));
+                    }
+                }
+            }
+        }
         let sys_boxes: Vec<Box<dyn Dictionary>> = sys
             .iter()
             .map(|layer| {
@@ -684,7 +734,6 @@ fn main() {
             o = gen_opts(&mut rng, &o, engine_kind);
         }
         // C02: every third session starts with a small buffer limit (own stream: the other choices are unchanged)
-        let mut rng_c02 = Rng::new(seed.wrapping_mul(7_777_777).wrapping_add(sid));
         if rng_c02.chance(1, 3) {
             o.auto_commit_threshold = rng_c02.below(8) as usize;
         }
